@@ -262,12 +262,16 @@ Qed.
 (** at the end of input nothing is consumed and no cursor is advanced *)
 Definition leaf_end_ok (l : leaf) : bool := match l with LConsume _ => false | LRet _ _ adv => negb adv end.
 
+Lemma source_return_end_ok src : tree_all leaf_end_ok (Leaf (source_return d src sym_end)) = true.
+Proof. unfold source_return. cbn [tree_all]. destruct (accepting d src); [reflexivity|]. destruct (is_end sym_end); reflexivity. Qed.
+
 Lemma epilogue_end rec src t qc brk : (forall q, tree_all leaf_end_ok (rec q) = true) ->
   tree_all leaf_end_ok (epilogue d rec src sym_end t qc false brk) = true.
 Proof.
   intros Hr. unfold epilogue. destruct (t_fall t).
-  - destruct (brk || match t_tgt t with Some _ => true | None => false end); [apply Hr | reflexivity].
-  - destruct (immediate_done d t); [reflexivity|]. reflexivity.
+  - destruct (brk || match t_tgt t with Some _ => true | None => false end); [apply Hr | apply source_return_end_ok].
+  - destruct (immediate_done d t); [reflexivity|]. unfold is_end. rewrite N.eqb_refl.
+    destruct ((match t_tgt t with Some q => accepting d q | None => false end) || accepting d src); reflexivity.
 Qed.
 
 Lemma run_acts_end rec src t : (forall q, tree_all leaf_end_ok (rec q) = true) ->
@@ -289,8 +293,8 @@ Lemma nf_end : forall fuel q, tree_all leaf_end_ok (nf d fuel q sym_end) = true.
 Proof.
   induction fuel as [|f IH]; intros q; cbn [nf]; [reflexivity|].
   destruct (nth_error (d_states d) q) as [[ts|brs|]|]; try reflexivity.
-  - destruct (select ts sym_end) as [t|]; [|reflexivity].
-    destruct (is_end sym_end && accepting d q && negb (has (t_on t) sym_end)); [reflexivity|].
+  - destruct (select ts sym_end) as [t|]; [|apply source_return_end_ok].
+    destruct (is_end sym_end && accepting d q && negb (has (t_on t) sym_end)); [apply source_return_end_ok|].
     unfold body. rewrite early_adv_end. apply run_acts_end. exact IH.
   - induction brs as [|[[c|] t] r IHr]; cbn [conds tree_all]; [reflexivity| |].
     + unfold body. rewrite early_adv_end. rewrite (run_acts_end _ q t IH). exact IHr.
